@@ -308,6 +308,46 @@ func c17Run(c *core.Ctx, r *core.Result, ch c17Chain) {
 		byAddr[hex.EncodeToString(ad)] = append(byAddr[hex.EncodeToString(ad)], fmt.Sprintf("%d-%s", idx, hex.EncodeToString(eh)))
 	}
 	rows.Close()
+	// the address index itself is under test: an address must also find every recorded action that names it
+	// as the input or as an output, whether or not an index row exists
+	inAddr := map[string]map[string]bool{}
+	for a, ids := range byAddr {
+		inAddr[a] = map[string]bool{}
+		for _, id := range ids {
+			inAddr[a][id] = true
+		}
+	}
+	named := func(a, txid string) {
+		if inAddr[a] == nil {
+			inAddr[a] = map[string]bool{}
+		}
+		if !inAddr[a][txid] {
+			inAddr[a][txid] = true
+			byAddr[a] = append(byAddr[a], txid)
+			r.Count("actions-naming-an-address-without-an-index-row", 1)
+		}
+	}
+	rows, _ = db.Query("SELECT entry_hash, tx_index, from_address, outputs FROM pn_history_transaction")
+	for rows.Next() {
+		var eh, from, outs []byte
+		var idx int
+		rows.Scan(&eh, &idx, &from, &outs)
+		txid := fmt.Sprintf("%d-%s", idx, hex.EncodeToString(eh))
+		if len(from) == 32 {
+			named(hex.EncodeToString(from), txid)
+		}
+		var os []struct {
+			Address string `json:"address"`
+		}
+		if len(outs) > 0 && json.Unmarshal(outs, &os) == nil {
+			for _, o := range os {
+				if fa, err := factom.NewFAAddress(o.Address); err == nil {
+					named(hex.EncodeToString(fa[:]), txid)
+				}
+			}
+		}
+	}
+	rows.Close()
 
 	// ---- (iii) paging
 	checkWalk := func(kind, keyName string, base map[string]interface{}, want []string) []apiAction {
